@@ -38,6 +38,28 @@ def run(fx, rep, tier):
     rule_pins(fx, rep)
     rule_pinray(fx, rep)
     rule_capacity(fx, rep)
+    rule_tables(fx, rep)
+
+
+def rule_tables(fx, rep):
+    """C01-TABLES. Every clause above reads slider attacks through the magic lookup; the generator is exact only if the lookup
+    table has an entry for every blocker subset of every square and the lookup lands inside it. These are clauses of C07
+    (FILL, SAMEIDX, LEAPGEN), re-reported here as a premise of this property."""
+    import core
+    import pC07
+    sub = type(rep)(rep.prop, rep.tier)
+    q = core.QUIET
+    core.QUIET = True
+    try:
+        for r in (pC07.rule_fill, pC07.rule_sameidx, pC07.rule_leapgen):
+            r(fx, sub)
+    finally:
+        core.QUIET = q
+    for v in sub.violations:
+        rep.violation("C01-TABLES", "C01-TABLES/" + v["key"], v["msg"] + " (the move generator reads this table: moves are then missing or illegal moves generated in the positions that hit the entry)", v["site"])
+    rep.obligations += sub.obligations
+    rep.discharged += sub.discharged
+    rep.rule("C01-TABLES", sub.obligations, 3, not sub.violations, "attack-table clauses the generator rests on (shared with C07)")
 
 
 MAX_LEGAL_MOVES_OF_CHESS = 218  # R6R/3Q4/1Q4Q1/4Q3/2Q4Q/Q4Q2/pp1Q4/kBNN1KB1 w - - 0 1 (Petrovic 1964); no legal position has more
@@ -1352,6 +1374,8 @@ def enum_name_of(e):
 GEN = "src/chess/movegen/gen.rs"
 MV = "src/chess/moves.rs"
 MUTANTS = [
+    {"name": "rook filler stops in front of the full blocker subset (seed C01-8a)", "expect": "C01-TABLES/C07-FILL/rook",
+     "edits": [("src/chess/movegen/tables/magics.rs", "        let occupancy_subsets = SubsetsOf::new(occupancies);\n\n        for blockers in occupancy_subsets {\n            let idx = table_index_rook(s, blockers);\n\n            unsafe {\n                ATTACKS_TABLE[idx] = attacks::generate_rook_attacks(s, blockers);\n            }\n        }", "        let mut blockers = Bitboard::EMPTY;\n\n        while blockers != occupancies {\n            let idx = table_index_rook(s, blockers);\n\n            unsafe {\n                ATTACKS_TABLE[idx] = attacks::generate_rook_attacks(s, blockers);\n            }\n\n            blockers = (blockers - occupancies) & occupancies;\n        }")]},
     {"name": "en passant refused for every diagonally pinned pawn (seed C17-4a)", "expect": "C01-PINRAY/generate_pawn_captures/en_passant",
      "edits": [(GEN, "                if !diagonal_pins.contains(potential_en_passant_capture_start)\n                    || diagonal_pins.contains(en_passant_target)\n                {", "                if !diagonal_pins.contains(potential_en_passant_capture_start) {")]},
     {"name": "queen promotion push ignores diagonal pins (seed C01-4a)", "expect": "C01-PINS/generate_pawn_captures/quiet_promotion",
